@@ -39,13 +39,31 @@ def report_value(v):
 
 def report_contents(a):
     """[[key, value], ...] with types preserved by the encoding; or an error marker"""
+    srt = lambda kv: json.dumps(kv[0], sort_keys=True, default=repr)
+    rep = {}
+    try:
+        # the other read paths first: key listing, per-key lookup, membership, length
+        ks = list(a.keys())
+        look = [[enc(k), report_value(a[k])] for k in ks]
+        look.sort(key=srt)
+        rep['lookups'] = look
+        rep['len'] = len(a)
+        rep['contains'] = all(k in a for k in ks)
+        rep['get'] = sorted(([enc(k), report_value(a.get(k, 'kv-missing'))] for k in ks), key=srt)
+    except Exception as e:
+        return {'error': 'keys/lookup path: %s: %s' % (type(e).__name__, str(e)[:200])}
     try:
         items = list(a.items())
     except Exception as e:
         return {'error': '%s: %s' % (type(e).__name__, str(e)[:200])}
     out = [[enc(k), report_value(v)] for k, v in items]
-    out.sort(key=lambda kv: json.dumps(kv[0], sort_keys=True, default=repr))
-    return {'items': out}
+    out.sort(key=srt)
+    rep['items'] = out
+    try:
+        list(a.keys())      # a key listing is the last thing this reader does before the next write
+    except Exception as e:
+        return {'error': 'keys(): %s: %s' % (type(e).__name__, str(e)[:200])}
+    return rep
 
 
 def child_main(path):
@@ -64,6 +82,15 @@ def child_main(path):
         out = c17_keys(klepto, job)
     elif kind == 'c17-session':
         out = c17_session(klepto, job)
+    elif kind == 'c04-func':
+        # (1) decorate over the archive and call (computes), (2) a *new* function on a *new* handle in the same
+        # process, (3) a new process while this one is alive; the parent adds (4) a new process after exit
+        one = {'cells': [job['cell']], 'shuffle_seed': 5}
+        out = {'first': c17_session(klepto, one)['cells'][0],
+               'same_process': c17_session(klepto, one)['cells'][0]}
+        live = spawn({'job': 'c17-session', 'cells': [job['cell']], 'shuffle_seed': 5}, job['cell']['root'], 'flive',
+                     env_extra=job.get('reader_env'))
+        out['live_process'] = live['cells'][0] if 'cells' in live else {'child_failed': live.get('child_failed', '')[-300:]}
     with open(job['out'], 'w') as f:
         json.dump(out, f)
 
@@ -275,7 +302,24 @@ def gen_case_c04(rng):
             ops.append(['rebuild'])
     ops.append(['check', True])
     ops.append(['rebuild'])
-    return {'backend': b, 'ops': ops, 'write_bytecode': rng.random() < 0.5, 'seed': rng.randrange(1 << 30)}
+    return {'backend': b, 'ops': ops, 'write_bytecode': rng.random() < 0.5, 'seed': rng.randrange(1 << 30),
+            'func_cell': gen_func_cell(rng, b)}
+
+
+def gen_func_cell(rng, b):
+    """a decorated-function workload over backend b (clause: a decorated function re-created on the archive
+    is served from it): same cell format as the C17 sessions, keymap restricted to keys b can hold"""
+    for _ in range(200):
+        cell = gen_cells_c17(rng, 1)[0]
+        km = cell['keymap']
+        kk = gen.key_kind(km)
+        km_eff = dict(km, sentinel=True) if (cell.get('ignore') and kk == 'raw') else km
+        if gen.backend_accepts(b, kk, km_eff):
+            cell['backend'] = dict(b)
+            cell['maxsize'] = rng.choice([1, 2, 3, 8])
+            cell['purge'] = rng.random() < 0.4
+            return cell
+    return None
 
 
 def model_after(ops, upto):
@@ -354,6 +398,38 @@ def run_case_c04(case):
                             bad('rebuilt-archive-settings-differ', 'archive rebuilt via %s reports different state' % how)
                 if rb.get('dill_shares_store') is False:
                     bad('rebuilt-archive-other-store', 'a write through the unpickled archive is not visible through the original')
+        cell = case.get('func_cell')
+        if cell is not None:
+            cell = dict(cell, root=os.path.join(root, 'F'))
+            os.makedirs(cell['root'])
+            fr = spawn({'job': 'c04-func', 'cell': cell, 'reader_env': env}, root, 'func', env_extra=env, timeout=180)
+            if 'child_failed' in fr:
+                bad('function-session-failed', fr['child_failed'][-400:])
+            else:
+                after = spawn({'job': 'c17-session', 'cells': [cell], 'shuffle_seed': 5}, root, 'fafter', env_extra=env)
+                fr['after_exit'] = after['cells'][0] if 'cells' in after else {'child_failed': after.get('child_failed', '')[-300:]}
+                first = fr['first']
+                long_mech = name_too_long_mech(cell)
+                if not any(r.startswith('raised') for r in first['results']):
+                    for where in ('same_process', 'live_process', 'after_exit'):
+                        o = fr[where]
+                        if 'child_failed' in o:
+                            bad('function-session-failed', '%s: %s' % (where, o['child_failed']))
+                            continue
+                        note('c04_function_recreated_' + where)
+                        if o['evals'] != 0 or o['info'][1] != 0:
+                            bad('recreated-function-recomputed',
+                                'backend %s, %s_cache, keymap %r: a function re-created on the archive (%s) evaluated %d '
+                                'times, info (hit,miss,load)=%r; the first session had stored all %d results %s'
+                                % (backend_name(case['backend']), cell['deco'], cell['keymap'], where, o['evals'],
+                                   o['info'], len(first['results']), first['results'][:4]),
+                                stale_pyc_mech(case, 'new_handle') + long_mech)
+                        elif o['results'] != first['results']:
+                            bad('recreated-function-other-results',
+                                '%s: results %r, first session %r' % (where, o['results'][:4], first['results'][:4]),
+                                stale_pyc_mech(case, 'new_handle') + long_mech)
+                else:
+                    note('c04_function_sessions_with_failed_calls')
         # a new process after the writer has exited
         final = spawn({'job': 'c04-read', 'backend': case['backend'], 'root': root}, root, 'final', env_extra=env)
         note('c04_reads_after_exit')
@@ -368,6 +444,15 @@ def run_case_c04(case):
 def check_report(got, want, where, step, bad, mech=()):
     if 'error' in got:
         bad('reader-raised', '%s reader at step %d: %s' % (where, step, got['error']), mech)
+        return
+    for path in ('lookups', 'get'):
+        if path in got and got[path] != want:
+            bad('reader-lookup-differs', '%s reader at step %d: per-key %s gave %s, written %s'
+                % (where, step, path, json.dumps(got[path])[:160], json.dumps(want)[:160]), mech)
+            return
+    if 'len' in got and (got['len'] != len(want) or not got['contains']):
+        bad('reader-len-or-membership-differs', '%s reader at step %d: len %r (written %d), all listed keys members: %r'
+            % (where, step, got['len'], len(want), got['contains']), mech)
         return
     if got['items'] != want:
         gk = [json.dumps(k) for k, _ in got['items']]
@@ -386,6 +471,13 @@ def check_report(got, want, where, step, bad, mech=()):
 
 STABLE_VALUES = [0, 1, 2, -1, 'a', 'b', '1', 2.5, None, (1,), (1, 2), ('a',), b'a', frozenset([1]), '',
                  [1, 2], {'k': 1}, 1.0e-09, 'd']
+
+
+DIRECTED_LONG_CELL = {
+    'spec': {'req': ['x'], 'def': [], 'var': False, 'kwonly': [], 'kw': False},
+    'keymap': {'cls': 'stringmap', 'type': None, 'flat': True, 'typed': False, 'sentinel': False},
+    'calls': [[['L' * 300], {}], [['short'], {}]], 'deco': 'inf', 'safe': False,
+    'backend': {'kind': 'dir', 'serialized': True, 'protocol': None}, 'maxsize': 3, 'purge': False}
 
 
 def gen_cells_c17(rng, n, with_backend=False):
@@ -451,6 +543,28 @@ def order_mech(cell, call, order_a, order_b):
     return []
 
 
+def name_too_long_mech(cell):
+    """witness-derived: on a dir backend, does one of this cell's calls get a key whose entry directory name
+    ('K_' + str(key)) is longer than the file system's 255-byte name limit?  dir_archive swallows the OSError of
+    the final rename, so such an entry is silently not stored (recorded finding)"""
+    if cell.get('backend', {}).get('kind') != 'dir':
+        return []
+    try:
+        from kv import keymon
+        from kv.cachemon import dir_fname
+        tgt = keymon.Target(cell['spec'], 'func')
+        f = tgt.decorate(keymon.make_deco({'keymap': cell['keymap'], 'deco': 'inf', 'safe': False,
+                                           'ignore': cell.get('ignore')}))
+        for call in cell['calls']:
+            a, k = dec(call[0]), dec(call[1])
+            name = 'K_' + dir_fname(f.key(*a, **k))
+            if len(name.encode('utf-8')) > 255:
+                return ['dir-entry-name-too-long']
+    except Exception:
+        pass
+    return []
+
+
 def run_c17_keys(rng, ncells, root, viol, cnt):
     cells = gen_cells_c17(rng, ncells)
     reports = []
@@ -490,8 +604,11 @@ def run_c17_keys(rng, ncells, root, viol, cnt):
     return cells, nontrivial
 
 
-def run_c17_sessions(rng, ncells, root, viol, cnt):
+def run_c17_sessions(rng, ncells, root, viol, cnt, directed=False):
     cells = gen_cells_c17(rng, ncells, with_backend=True)
+    if directed:
+        cells.append(copy.deepcopy(DIRECTED_LONG_CELL))
+        cnt['directed_cases'] = cnt.get('directed_cases', 0) + 1
     for i, c in enumerate(cells):
         c['root'] = os.path.join(root, 'sess%d' % i)
     ra = spawn({'job': 'c17-session', 'cells': cells, 'shuffle_seed': 11}, root, 'sessA',
@@ -513,6 +630,7 @@ def run_c17_sessions(rng, ncells, root, viol, cnt):
             mech = order_mech(cell, call, oa, ob)
             if mech:
                 break
+        mech = mech + name_too_long_mech(cell)
         if b['info'][1] != 0 or b['evals'] != 0:
             viol.append({'property': 'C17', 'kind': 'second-session-recomputed', 'mech': mech,
                          'msg': 'backend %s, keymap %r: the second session (other hash seed, other keyword order) had '
@@ -542,6 +660,15 @@ def run_shard(prop, tier, seed, shard, nshards, opts):
            'cells': {}, 'anchors': {}, 'notes': []}
     cnt = res['counters']
     if prop == 'C04':
+        if shard == 0:
+            # directed witness of the recorded long-entry-name finding (same judge; passes once repaired)
+            case = {'backend': {'kind': 'dir', 'serialized': True, 'protocol': None},
+                    'ops': [['set', 'k', 1], ['check', False]], 'write_bytecode': False, 'seed': 1, 'directed': True,
+                    'func_cell': dict(DIRECTED_LONG_CELL)}
+            viol, c = run_case_c04(case)
+            res['cases'] += 1
+            cnt['directed_cases'] = cnt.get('directed_cases', 0) + 1
+            res['violations'].extend(viol[:4])
         i = shard
         n_total = opts.get('cases', 400)
         while i < n_total and time.time() - t0 < budget:
@@ -573,7 +700,8 @@ def run_shard(prop, tier, seed, shard, nshards, opts):
             res['cases'] += len(cells)
             for c in cells[:nt]:
                 res['digests'].append(digest(c))
-            ns = run_c17_sessions(rng, opts.get('sessions', 6), sub, res['violations'], cnt)
+            ns = run_c17_sessions(rng, opts.get('sessions', 6), sub, res['violations'], cnt,
+                                  directed=(shard == 0 and rnd == 0))
             res['cases'] += opts.get('sessions', 6)
             for j in range(ns):
                 res['digests'].append(digest(['session', shard, rnd, j]))
